@@ -952,7 +952,7 @@ func (r *Rng) c07Elem(kind string) *Tree {
 
 // receivers: empty, singleton, duplicates, sorted, reversed, mixed int/float, nested, strings
 func (r *Rng) c07List() (*Tree, string) {
-	shapes := []string{"empty", "single", "dups", "dups", "sorted", "sorted", "reversed", "random", "random", "random", "random", "numeric-mixed", "numeric-mixed", "nested-lists", "nested-maps", "strings", "heterogeneous"}
+	shapes := []string{"empty", "single", "dups", "dups", "dups", "sorted", "sorted", "sorted", "reversed", "reversed", "random", "random", "random", "random", "random", "random", "numeric-mixed", "numeric-mixed", "nested-lists", "nested-maps", "strings", "heterogeneous"}
 	shape := shapes[r.Pick(len(shapes))]
 	t := tList()
 	n := 2 + r.Pick(7)
@@ -1207,7 +1207,7 @@ func init() {
 		"single":             {"list", "any", none},
 		"last":               {"list", "any", none},
 		"eval":               {"list", "list", none},
-		"movingWindow":       {"list", "list", f1("")},
+		"movingWindow":       {"list", "list", f1("key")},
 		"movingWindowRemove": {"list", "list", f1("listbool")},
 		// strings
 		"len":      {"str", "num", none},
@@ -1368,6 +1368,7 @@ func (r *Rng) genCase() *C07Case {
 	default:
 		c.Src, _ = r.c07List()
 	}
+	hashed := false
 	nsteps := []int{1, 1, 1, 2, 2, 3, 4}[r.Pick(7)]
 	if c.Static != "" && kind != "list" {
 		nsteps = r.Pick(2)
@@ -1397,7 +1398,18 @@ func (r *Rng) genCase() *C07Case {
 		default:
 			s = Step{M: "string"}
 		}
-		if r.Chance(0.09) {
+		// keep the share of plain successes up: fit the receiver to methods that need a special one
+		if i == 0 && c.Static == "" {
+			switch {
+			case s.M == "toInt" && r.Chance(0.6):
+				c.Src = tStr([]string{"12", "-7", "+5", "007", "0", "9223372036854775807", "-9223372036854775808", "42"}[r.Pick(8)])
+			case s.M == "single" && c.Src.Kind == "list" && len(c.Src.Items) > 1 && r.Chance(0.6):
+				c.Src.Items = c.Src.Items[:1]
+			case s.M == "set" && c.Src.Kind == "list" && len(c.Src.Items) > 0 && r.Chance(0.7):
+				s.Args[0] = val(tInt(r.Pick(len(c.Src.Items))))
+			}
+		}
+		if r.Chance(0.07) {
 			var what string
 			s, what = r.misuse(s, kind)
 			if what != "" {
@@ -1419,6 +1431,12 @@ func (r *Rng) genCase() *C07Case {
 		}
 		if kind == "ulist" {
 			out = "num"
+		}
+		if kind == "map" && s.M == "eval" {
+			hashed = true // a Go map from here on: iteration order is not specified
+		}
+		if kind == "map" && s.M == "list" && hashed {
+			out = "ulist"
 		}
 		kind = out
 		if kind == "any" {
@@ -1559,13 +1577,13 @@ func humanArgs(c *C07Case) []string {
 }
 
 func cmdC07(seed int64, tier, outDir string) {
-	n := 1600
+	n := 1400
 	if tier == "thorough" {
 		n = 60000
 	}
 	r := NewRng(seed)
 	sum := NewSummary("C07", seed, tier)
-	sum.Rule = "pipelines source(.method(args)){0..4} run through value.New().Generate; sources: lists (empty, singleton, duplicates, sorted, reversed, random ints incl. extremes, mixed int/float, nested lists/maps, strings, heterogeneous; eager or behind a lazy map stage), unicode strings, maps, static calls; callbacks from a closed pool with Coq twins; 9% of the steps are misuse on purpose (call arity, argument type, callback arity, callback failing at an element or returning the wrong type, method of another type). Every case applies at least one built-in; distinct by program text and argument values"
+	sum.Rule = "pipelines source(.method(args)){0..4} run through value.New().Generate; sources: lists (empty, singleton, duplicates, sorted, reversed, random ints incl. extremes, mixed int/float, nested lists/maps, strings, heterogeneous; eager or behind a lazy map stage), unicode strings, maps, static calls; callbacks from a closed pool with Coq twins; 7% of the steps are misuse on purpose (call arity, argument type, callback arity, callback failing at an element or returning the wrong type, method of another type). Every case applies at least one built-in; distinct by program text and argument values"
 	cw := NewCaseWriter(outDir, "From P2 Require Import Base.Prelude Sem.Num Sem.Syntax Sem.Ops Lib.Names Lib.Builtins Run.C07Run.", "c07_case", "c07_id", "c07_im", "c07_is", 450)
 	id := 0
 	if optReplay != "" {
